@@ -64,7 +64,8 @@ func c12Lane(c *Ctx, fn *ssa.Function) {
 	slow := plainEdges(edgesMatching(b, "bin<==>("+W+", "+maxu+")"))
 	loop3 := plainEdges(edgesMatching(b, "bin<<>("+J+", call<math/bits.Len>(un<^>("+V+")))"))
 	loop3out := plainEdges(edgesMatching(b, "bin<>=>("+J+", call<math/bits.Len>(un<^>("+V+")))"))
-	bitZero := plainEdges(edgesMatching(b, "bin<==>(bin<&>(bin<>>>("+V+", "+J+"), 1), 0)"))
+	// bit J of v is clear — tested on v or on its complement (J < Len(^v) <= the word size is the loop bound above)
+	bitZero := plainEdges(edgesMatching(b, "bin<==>(bin<&>(bin<>>>("+V+", "+J+"), 1), 0)", "bin<!=>(bin<&>(bin<>>>(un<^>("+V+"), "+J+"), 1), 0)"))
 	cmpLE := plainEdges(edgesMatching(b, "bin<<=>(call<(*math/big.Int).Cmp>(call<*>(p0, p1, conv<uint>("+J+")), p3), 0)"))
 	r.Check(loop1 && len(allNon) == 1 && len(someZero) == 1, "C12.stage-structure.stage1-mask", c.P.Pos(fn.Pos()), "stage 1: v = OR of l[i]^h[i] for i = 243-(s-1) .. 242 (loop=%v), compared with all-ones", loop1)
 	r.Check(len(fast) == 1 && len(slow) == 1, "C12.stage-structure.stage2-position", c.P.Pos(fn.Pos()), "stage 2: w = v | (l[243-s]^h[243-s]) — exactly one more position — compared with all-ones")
